@@ -115,6 +115,8 @@ def from_params(args):
             if "Prefixed" in str(par.dtype) and (rnd.random() < 0.7 or (par.default is h.default.Default and par.default_factory is h.default.Default)):
                 v = rnd.choice(sc)[0]
                 kw[fn] = v
+            if ("Optional" in str(par.dtype) or "None" in str(par.dtype)) and rnd.random() < 0.25:
+                kw[fn] = None          # an explicit None, also where the default is a number: not exported, and must come back as None
         try:
             call = prim(**kw)
         except Exception:
